@@ -4,12 +4,24 @@
    whose hierarchy is consistent with index order and whose links attach only to ports their operations
    have (guard_b).  `vports`, `sports`, `has_order` are the reader's contract (hugr-core/src/ops.rs:
    value_port_count, static_port, other_port); the hypothesis ties ops._num_dataflow_ports to it.
-   Monitored, not proved: validity of the emitted JSON text against the published strict schema
-   (jsonschema per generated document: HUGRs, packages, extensions), and the same clauses for every
-   module of a package (a package document is the list of the modules' documents). *)
-From Coq Require Import List Bool Arith.
+   Second pass, schema validity inside Coq (model/DocJson.v, proofs/DocJsonP.v, proofs/DocJsonSchemasP.v):
+   the JSON rendering `doc_json` of every document the model serialises is accepted by the SerialHugr
+   definition of the REGENERATED published strict schema (gen/Schemas.v `published_hugr_strict`), and a package
+   of such documents by its Package definition, under the visible hypothesis that the file's OpType definition
+   accepts every operation object (C05/C17's subject); the proof goes through hand-written shapes of the two
+   definitions which a vm_compute lemma compares with the file on every run (up to key order, order of `required`,
+   "additionalProperties": true and annotations).
+   Monitored, not proved: that the JSON text hugr-py emits is `doc_json` of the model's document (evaluated per
+   case), validity of every emitted document against the published strict schema (Coq validator of
+   model/Schema.v and python-jsonschema, both per generated document: HUGRs, packages, extensions), and the
+   typed clauses for every module of a package (a package document is the list of the modules' documents). *)
+From Coq Require Import List Bool Arith String ZArith.
 Import ListNotations.
 From HV Require Import lib.Harness model.SerialHugr spec.SerialHugrS proofs.SerialHugrP.
+From HV Require Import model.Schema model.SchemaFast model.SchemaStrip model.DocJson model.NodeParent proofs.SchemaFastP
+  proofs.SchemaStripP proofs.DocJsonP
+  proofs.NodeParentP proofs.DataEquivP proofs.DocJsonSchemasP gen.Schemas spec.DocJsonS proofs.DocJsonIndexP.
+Open Scope nat_scope.
 
 Section C03.
   Variables op sop md : Type.
@@ -37,6 +49,27 @@ Section C03.
     s_edges s = map (expected_edge vports sports h) (h_links h).
   Proof. exact (serial_port_addressing op sop md enc ndp md_nil md_is_nil vports sports has_order ndp_spec). Qed.
 
+  (* the same index sanity read off the JSON TEXT of the document (spec/DocJsonS.v: what a reader of the text
+     sees, no serial records): `nodes` non-empty, node 0 has "parent": 0, every later node's "parent" is a smaller
+     position, the first component of both endpoints of every edge is a position below the node count *)
+  Variable op_fields : sop -> obj.
+  Variable md_fields : md -> obj.
+  Theorem C03_json_text_index_sane : forall (encoder : option string) (h : hugr op md) (s : serial sop md),
+    guard_b vports sports has_order h = true -> to_serial enc ndp md_is_nil h = Some s ->
+    json_index_sane (doc_json op_fields md_fields encoder s) = true.
+  Proof.
+    exact (model_json_index_sane op sop md enc ndp md_nil md_is_nil vports sports has_order ndp_spec op_fields md_fields).
+  Qed.
+
+  (* ... and port addressing in the JSON text: `edges` is, link by link, [[rank src, addr src], [rank dst, addr dst]] *)
+  Theorem C03_json_text_port_addressing : forall (encoder : option string) (h : hugr op md) (s : serial sop md),
+    guard_b vports sports has_order h = true -> to_serial enc ndp md_is_nil h = Some s ->
+    jget "edges" (doc_json op_fields md_fields encoder s) =
+    Some (JArr (map (fun l => edge_json (expected_edge vports sports h l)) (h_links h))).
+  Proof.
+    exact (model_json_edges op sop md enc ndp md_nil md_is_nil vports sports has_order ndp_spec op_fields md_fields).
+  Qed.
+
   (* serialization of a guarded HUGR does not fail *)
   Theorem C03_serialization_total : forall h : hugr op md,
     guard_b vports sports has_order h = true -> exists s : serial sop md, to_serial enc ndp md_is_nil h = Some s.
@@ -58,8 +91,117 @@ Example C03_example :
             s_edges s = [((1, Some 0), (2, Some 0)); ((1, Some 1), (2, Some 1))].
 Proof. split; [reflexivity|]. eexists. split; [reflexivity|]. split; reflexivity. Qed.
 
+(* ---- schema validity of the model's documents, for ALL HUGRs (second pass) ---- *)
+Section C03Schema.
+  Variables op sop md : Type.
+  Variable enc : op -> sop.
+  Variable ndp : op -> dir -> option nat.
+  Variable md_is_nil : md -> bool.
+  Variable op_fields : sop -> obj.       (* members of the encoded operation object, without `parent` *)
+  Variable md_fields : md -> obj.        (* members of a metadata dict *)
+
+  (* every document Hugr._to_serial's model produces, written as JSON (version, nodes = operation object +
+     parent, edges = [[n, o|null], [n, o|null]], metadata = array of object|null, encoder), validates against
+     {"$ref": "#/$defs/SerialHugr"} of the published strict schema file as it is on disk now -- whatever the HUGR
+     (no guard needed: also after deletion and index reuse), provided the file's OpType accepts every operation
+     object written with parent 0 (ops_valid0; fuel f for them, f + 3 for the document).  That the verdict on an
+     operation object cannot depend on the parent index is proved from a certificate evaluated on the regenerated
+     file (proofs/NodeParentP.v parent_indep, strict_OpType_parent_cert). *)
+  Theorem C03_model_document_schema_valid : forall (encoder : option string) (f : nat) (h : hugr op md) (s : serial sop md),
+    4 <= f -> ops_valid0 published_hugr_strict sop op_fields f ->
+    to_serial enc ndp md_is_nil h = Some s ->
+    accepts (3 + f) published_hugr_strict "SerialHugr" (doc_json op_fields md_fields encoder s) = true.
+  Proof. exact (published_model_doc_accepted sop md op_fields md_fields op enc ndp md_is_nil). Qed.
+
+  (* the same for the text hugr-py emitted, whenever it is the model's rendering as JSON data (objects as maps): the
+     premise is what the correspondence evaluates per case (run/C03SchemaRun.v tie_ok); validation cannot tell
+     data-equal documents apart (proofs/DataEquivP.v: data_equiv is symmetric and transitive, every keyword respects it) *)
+  Theorem C03_emitted_document_schema_valid : forall (encoder : option string) (f : nat) (h : hugr op md) (s : serial sop md)
+      (emitted : json),
+    4 <= f -> ops_valid0 published_hugr_strict sop op_fields f ->
+    to_serial enc ndp md_is_nil h = Some s ->
+    data_equiv (doc_json op_fields md_fields encoder s) emitted = true ->
+    accepts (3 + f) published_hugr_strict "SerialHugr" emitted = true.
+  Proof. exact (published_emitted_doc_accepted sop md op_fields md_fields op enc ndp md_is_nil). Qed.
+
+  (* a package of such modules and of extension documents the file's Extension definition accepts validates
+     against {"$ref": "#/$defs/Package"} *)
+  Theorem C03_model_package_schema_valid : forall (f : nat) (hs : list (hugr op md)) (mods : list (serial sop md)) (exts : list json),
+    4 <= f -> ops_valid0 published_hugr_strict sop op_fields f ->
+    mapM (to_serial enc ndp md_is_nil) hs = Some mods ->
+    (forall e, In e exts -> accepts (3 + f) published_hugr_strict "Extension" e = true) ->
+    accepts (6 + f) published_hugr_strict "Package" (pkg_json op_fields md_fields mods exts) = true.
+  Proof. exact (published_model_pkg_accepted sop md op_fields md_fields op enc ndp md_is_nil). Qed.
+  (* ... and the emitted Package text, when it is pkg_json of the modules' model documents as data (run: pkg_ok) *)
+  Theorem C03_emitted_package_schema_valid : forall (f : nat) (hs : list (hugr op md)) (mods : list (serial sop md))
+      (exts : list json) (emitted : json),
+    4 <= f -> ops_valid0 published_hugr_strict sop op_fields f ->
+    mapM (to_serial enc ndp md_is_nil) hs = Some mods ->
+    (forall e, In e exts -> accepts (3 + f) published_hugr_strict "Extension" e = true) ->
+    data_equiv (pkg_json op_fields md_fields mods exts) emitted = true ->
+    accepts (6 + f) published_hugr_strict "Package" emitted = true.
+  Proof. exact (published_emitted_pkg_accepted sop md op_fields md_fields op enc ndp md_is_nil). Qed.
+End C03Schema.
+
+(* the same statements relative to ANY schema file whose SerialHugr / Package definitions have the expected shapes
+   (what is evaluated on the regenerated constant: C03_published_shapes) *)
+Theorem C03_document_schema_valid_any_file : forall (root : json),
+  self_equiv root = true -> def_matches root "SerialHugr" shape_SerialHugr = true ->
+  forall (sop md : Type) (op_fields : sop -> obj) (md_fields : md -> obj) (encoder : option string) (f : nat)
+         (s : serial sop md),
+  4 <= f -> ops_valid root sop op_fields f ->
+  accepts (3 + f) root "SerialHugr" (doc_json op_fields md_fields encoder s) = true.
+Proof. exact doc_accepted. Qed.
+Theorem C03_published_shapes :
+  self_equiv published_hugr_strict = true /\
+  def_matches published_hugr_strict "SerialHugr" shape_SerialHugr = true /\
+  def_matches published_hugr_strict "Package" shape_Package = true.
+Proof. exact (conj strict_self_equiv (conj strict_SerialHugr_shape strict_Package_shape)). Qed.
+
+(* the published OpType and its 21 alternatives give the same verdict on an object whatever integer `parent` holds *)
+Theorem C03_published_OpType_ignores_parent_index : forall f a b kvs,
+  accepts f published_hugr_strict "OpType" (pnode a kvs) = accepts f published_hugr_strict "OpType" (pnode b kvs).
+Proof. exact (accepts_parent_indep _ _ "OpType" strict_OpType_parent_cert (or_introl eq_refl)). Qed.
+
+(* documents that are equal as JSON data (member order of objects irrelevant) get the same verdict, for every schema *)
+Theorem C03_validation_respects_data_equality : forall fuel root s d1 d2,
+  data_equiv d1 d2 = true -> validates fuel root s d1 = validates fuel root s d2.
+Proof. exact validates_data_equiv. Qed.
+
+(* annotations (title, description, default, discriminator) have no effect on validation: what lets the shapes be
+   written without the documentation strings of the published file *)
+Theorem C03_annotations_do_not_matter : forall fuel root s d,
+  validates fuel (strip root) (strip s) d = validates fuel root s d.
+Proof. exact strip_preserves_validation. Qed.
+
+(* the monitor's short-circuit validator is the validator of model/Schema.v *)
+Theorem C03_fast_validator_is_the_validator : forall fuel root name d,
+  faccepts fuel root name d = accepts fuel root name d.
+Proof. exact faccepts_eq. Qed.
+
+(* non-vacuity: operation objects the published OpType accepts with every parent, a document and a package of them
+   accepted through the theorems, and three malformed documents rejected *)
+Example C03_schema_example :
+  ops_valid published_hugr_strict ex_op ex_fields 10 /\
+  accepts 13 published_hugr_strict "SerialHugr" (doc_json ex_fields ex_md (Some "hugr-py v0"%string) ex_serial) = true /\
+  accepts 16 published_hugr_strict "Package" (pkg_json ex_fields ex_md [ex_serial; ex_serial] []) = true.
+Proof. exact (conj ex_ops_valid ex_doc_accepted). Qed.
+
 Print Assumptions C03_serial_index_sane.
 Print Assumptions C03_serial_port_addressing.
 Print Assumptions C03_serialization_total.
+Print Assumptions C03_json_text_index_sane.
+Print Assumptions C03_json_text_port_addressing.
 Print Assumptions C03_index_reuse_refuted.
 Print Assumptions C03_example.
+Print Assumptions C03_model_document_schema_valid.
+Print Assumptions C03_emitted_document_schema_valid.
+Print Assumptions C03_model_package_schema_valid.
+Print Assumptions C03_emitted_package_schema_valid.
+Print Assumptions C03_validation_respects_data_equality.
+Print Assumptions C03_document_schema_valid_any_file.
+Print Assumptions C03_published_shapes.
+Print Assumptions C03_published_OpType_ignores_parent_index.
+Print Assumptions C03_annotations_do_not_matter.
+Print Assumptions C03_fast_validator_is_the_validator.
+Print Assumptions C03_schema_example.
